@@ -23,6 +23,9 @@ pub enum KOp {
     Recv(bool),
     Read(u16),
     FillConsume(u16),
+    /// embedded_io::Read::read_exact of 1..=n bytes, issued only while that many bytes have been
+    /// delivered and not yet consumed (so it never blocks)
+    ReadExact(u16),
     ReadReady,
     AckInt(u8),
     Send(u8),
@@ -225,6 +228,31 @@ impl WithT for Run<'_> {
                         }
                     }
                     sig.add(1 + *pop as u64);
+                }
+                KOp::ReadExact(n) => {
+                    sync(&mut pending, &mut synced);
+                    if pending.is_empty() {
+                        continue;
+                    }
+                    let k = 1 + (*n as usize % pending.len());
+                    let mut buf = vec![0u8; k];
+                    let r = g!(what, embedded_io::Read::read_exact(&mut con, &mut buf));
+                    sync(&mut pending, &mut synced);
+                    dev.with(|d| d.h.unpopped = false);
+                    if r.is_err() {
+                        return Err(format!("{}: read_exact({}) failed with {:?} although {} bytes were available", what, k, r.err(), pending.len()));
+                    }
+                    for (j, b) in buf.iter().enumerate() {
+                        let want = pending.pop_front().unwrap();
+                        if *b != want {
+                            return Err(format!("{}: byte {} of the result is {:#x}, the stream has {:#x} (stream offset {})", what, j, b, want, consumed + j as u64));
+                        }
+                    }
+                    consumed += k as u64;
+                    if !pending.is_empty() {
+                        partial = true;
+                    }
+                    sig.add(12).add(k.min(9) as u64);
                 }
                 KOp::Read(n) | KOp::FillConsume(n) => {
                     sync(&mut pending, &mut synced);
@@ -482,6 +510,7 @@ fn op() -> impl Strategy<Value = KOp> {
         1 => any::<u8>().prop_map(KOp::Send),
         1 => any::<u16>().prop_map(KOp::SendBytes),
         1 => any::<u16>().prop_map(KOp::Write),
+        3 => any::<u16>().prop_map(KOp::ReadExact),
         2 => (0u8..3, any::<u16>()).prop_map(|(h, s)| KOp::Fmt(h, s)),
         6 => Just(KOp::Deliver),
         1 => drv::serve_strategy().prop_map(KOp::Policy),
